@@ -104,6 +104,65 @@ def check_program(ctx, p, src, tag):
         ctx.feature(c)
 
 
+def render_tree(value, indent=0, prefix=''):
+    """The text `printast` documents for a tree: a node is its class name followed by its fields (`* name: `), a list is `[list:]`
+    followed by its items (`- `), anything else is its str(); two blanks of indentation per level."""
+    from pico8.lua import parser
+    out = []
+    if isinstance(value, parser.Node):
+        out.append('%s%s%s\n' % (' ' * indent, prefix, type(value).__name__))
+        for field in value._fields:
+            out.extend(render_tree(getattr(value, field), indent + 2, '* %s: ' % field))
+    elif isinstance(value, (list, tuple)):
+        out.append('%s%s[list:]\n' % (' ' * indent, prefix))
+        for item in value:
+            out.extend(render_tree(item, indent + 2, '- '))
+    else:
+        out.append('%s%s%s\n' % (' ' * indent, prefix, value))
+    return out
+
+
+def check_printast(ctx, p, src, workdir):
+    """`p8tool printast cart.p8`: the tree of the cart as loaded from the file is the program's tree, and what is printed is that tree."""
+    import io
+    import os
+    from pico8 import tool, util
+    from pico8.game import file as p8file
+    from .. import refcodec as rc, carts
+    case = {'src': src, 'tag': 'printast', 'feats': sorted(p.feats)}
+    regions, _ = carts.random_regions(ctx.rng, 'zero')
+    cart = os.path.join(workdir, ambient.BASE[0] + '.p8')
+    with open(cart, 'wb') as fh:
+        fh.write(rc.write_p8_variant(ctx.rng, regions, src, version=ambient.VERSION[0]))
+    buf = io.StringIO()
+    saved = (util._write_stream, util._verbosity)
+    util._write_stream = buf
+    util.set_verbosity(util.VERBOSITY_NORMAL)      # (the tree is written with util.write: nothing is printed at quiet verbosity)
+    try:
+        rcode = tool.main(['printast', cart])
+    except Exception as e:
+        ctx.violation('p8tool printast raised %r on a valid program' % (e,), case)
+        return
+    finally:
+        util._write_stream, util._verbosity = saved
+    ctx.monitor('printast_runs')
+    if rcode:
+        ctx.violation('p8tool printast returned %r on a valid program' % (rcode,), case)
+        return
+    g = p8file.from_file(cart)
+    d = ptree.first_diff(p.tree, ptree.norm_chunk(g.lua.root))
+    if d:
+        ctx.violation('tree of the cart loaded from a .p8 file differs from the program: %s' % d, case)
+        return
+    want = ''.join(render_tree(g.lua.root))
+    got = buf.getvalue()
+    if got != want:
+        gl, wl = got.splitlines(), want.splitlines()
+        k = next((i for i in range(min(len(gl), len(wl))) if gl[i] != wl[i]), min(len(gl), len(wl)))
+        ctx.violation('printast prints something else than the tree the library exposes: line %d is %r, the tree has %r (%d vs %d lines)' % (
+            k + 1, gl[k] if k < len(gl) else None, wl[k] if k < len(wl) else None, len(gl), len(wl)), case)
+
+
 def reuse_parser(ctx, rng, parser_obj, p, src):
     """History: the same Parser instance parses program after program (the class documents one instance per thread), with
     failing parses in between; each valid program must still produce its tree."""
@@ -192,6 +251,10 @@ def run_shard(spec, ctx):
             continue
         ctx.feature('depth_%d' % depth)
         check_program(ctx, p, src, 'program')
+        if i % 8 == 1 and b'\r' not in src:
+            import tempfile
+            with tempfile.TemporaryDirectory(prefix='vf-c08-') as wd:
+                check_printast(ctx, p, src, wd)
         if i % 5 == 2 and b'\r' not in src:
             # classic-Mac line ends: every line break a lone CR (the lexer has a newline rule for it); the tree is the same tree
             cr = src.replace(b'\n', b'\r')
@@ -264,6 +327,8 @@ def gates(m, tier):
             f.get('big_programs', 0), f.get('program_with_over_200_short_ifs', 0), f.get('program_with_over_250_blocks', 0)))
     if f.get('bare_cr_with_short_if', 0) < 30:
         missed.append('bare-CR sources with a short-if: %d' % f.get('bare_cr_with_short_if', 0))
+    if mon.get('printast_runs', 0) < 100:
+        missed.append('printast runs: %d' % mon.get('printast_runs', 0))
     if mon.get('trees_compared', 0) < 1000:
         missed.append('trees compared: %d' % mon.get('trees_compared', 0))
     return missed
